@@ -168,8 +168,7 @@ def job(E, version, req, route, ws_string=False, shuffle=False, warmup=False, _m
     ws = [unq(v, "ws") for k, v in params if k == "ws"]
     E.check(len(ws) == len(seeds) and all((a is b) or (isinstance(b, str) and a == b) for a, b in zip(ws, seeds)), "C11.ws",
             "ws decodes to %r, metafile has %r" % (ws, seeds))
-    other = [k for k, v in params if k not in ("xt", "dn", "tr", "ws")]
-    E.check(not other, "C11.no-other-params", "%r" % (other,))
+    # further parameters (xl=, kt=, ...) are not forbidden by the statement and are not judged
     if version == 3 and req in (0, 3):
         E.witnesses["hybrid, both hashes"] = True
     if version == 3 and req == 1:
